@@ -80,7 +80,7 @@ Theorem lru_refuted_other_loop :
     executing (run cf ops) c1 k /\ executing (run cf ops) c2 k /\
     dict (run cf (firstn 4 ops)) = [] /\ currsize (run cf (firstn 4 ops)) = 1%Z.
 Proof.
-  exists cfg_m1, w_f30_other_loop, 0, 1, 1. vm_compute.
+  exists cfg_m1, w_f30_other_loop, 0, 1, 2. vm_compute.
   refine (conj eq_refl (conj eq_refl (conj eq_refl (conj eq_refl (conj eq_refl (conj _ (conj _ (conj _ (conj eq_refl eq_refl)))))))));
     [discriminate|left|left]; repeat eexists.
 Qed.
@@ -95,7 +95,7 @@ Theorem lru_refuted_clear_in_flight :
     c1 <> c2 /\ executing (run cf ops) c1 k /\ executing (run cf ops) c2 k /\
     dict (run cf (firstn 8 ops)) = [] /\ currsize (run cf (firstn 8 ops)) = 1%Z.
 Proof.
-  exists cfg_m1, w_f30_clear_in_flight, 0, 2, 2. vm_compute.
+  exists cfg_m1, w_f30_clear_in_flight, 0, 2, 4. vm_compute.
   refine (conj eq_refl (conj eq_refl (conj eq_refl (conj _ (conj _ (conj _ (conj eq_refl eq_refl)))))));
     [discriminate|left|left]; repeat eexists.
 Qed.
@@ -207,7 +207,7 @@ Theorem lru_refuted_old_expiry_order :
     (forall y, In y (dict (fst (old_expiry_step cf (run_old cf ops) o))) -> sk y <> sk x) /\
     In y' (dict (fst (old_expiry_step cf (run_old cf ops) o))) /\ ss y' < ss x.
 Proof.
-  exists cfg_f15, w_f15, (Call 0 6), (mkslot 1 (EVal 3 (Some 4)) 4), (mkslot 2 (EVal 2 (Some 3)) 2).
+  exists cfg_f15, w_f15, (Call 0 6), (mkslot 2 (EVal 3 (Some 4)) 4), (mkslot 4 (EVal 2 (Some 3)) 2).
   vm_compute. refine (conj eq_refl (conj _ (conj _ (conj _ (conj _ (conj _ _)))))).
   - discriminate.
   - discriminate.
@@ -221,10 +221,10 @@ Qed.
    recomputed, and the miss on key 3 evicts key 2 *)
 Example ex_f15_fixed :
   fl (run cfg_f15 (w_f15 ++ [Call 0 6])) = mkfl false false false false false false /\
-  map sk (dict (run cfg_f15 (firstn 8 w_f15))) = [1; 2] /\
-  map sk (dict (run cfg_f15 (firstn 9 w_f15))) = [2; 1] /\
-  map (fun x => (sk x, ss x)) (dict (run cfg_f15 w_f15)) = [(2, 2); (1, 4)] /\
-  map sk (dict (run cfg_f15 (w_f15 ++ [Call 0 6]))) = [1; 3].
+  map sk (dict (run cfg_f15 (firstn 8 w_f15))) = [2; 4] /\
+  map sk (dict (run cfg_f15 (firstn 9 w_f15))) = [4; 2] /\
+  map (fun x => (sk x, ss x)) (dict (run cfg_f15 w_f15)) = [(4, 2); (2, 4)] /\
+  map sk (dict (run cfg_f15 (w_f15 ++ [Call 0 6]))) = [2; 6].
 Proof. vm_compute. auto 7. Qed.
 
 (* ------------------------------------------------------------------------------------------------ *)
@@ -250,7 +250,7 @@ Qed.
 Example ex_contended_state :
   let s := run cfg_m2 (firstn 3 ex_ops) in
   phase s 0 = CInWrapped 0 0 None false 0 /\ phase s 1 = CLockWait 0 0 0 0 /\
-  phase s 2 = CInWrapped 1 1 None false 0 /\
+  phase s 2 = CInWrapped 2 1 None false 0 /\
   Lock.owner (locks s 0) = Some 0 /\ length (Lock.waiters (locks s 0)) = 1 /\
   map se (dict s) = [EPlace 0 true; EPlace 1 true] /\ currsize s = 2%Z.
 Proof. vm_compute. auto 8. Qed.
@@ -269,7 +269,7 @@ Proof. vm_compute. auto. Qed.
 (* the eviction happens exactly when the count has reached maxsize (hypothesis of lru_evicts_only_when_full) *)
 Example ex_evicts_completed_lru :
   let s := run cfg_m2 (firstn 8 ex_ops) in
-  map sk (dict s) = [1; 0] /\ map sk (dict (fst (step cfg_m2 s (Call 0 4)))) = [0; 2] /\
+  map sk (dict s) = [2; 0] /\ map sk (dict (fst (step cfg_m2 s (Call 0 4)))) = [0; 4] /\
   currsize s = 2%Z /\
   currsize (run cfg_m2 ex_ops) = 2%Z /\ hits (run cfg_m2 ex_ops) = 1 /\ misses (run cfg_m2 ex_ops) = 3 /\
   map se (dict (run cfg_m2 ex_ops)) = [EVal 5 None; EVal 7 None].
